@@ -16,6 +16,9 @@ NEv == Len(Traces[tid].ev)
 Evt == Traces[tid].ev[l]
 Act == CASE Evt.op = "add" -> AddStyle(Evt.nm, Evt.a) /\ Evt.name \in DOMAIN named' /\ named'[Evt.name] = Evt.a /\ Evt.name \notin DOMAIN named
          [] Evt.op = "apply" -> Apply(Evt.c, Evt.name)
+         [] Evt.op = "edit" -> \* (recorded on a loaded fixture document: no guard on the generator's disk variable)
+                               /\ shown' = [shown EXCEPT ![Evt.c] = Evt.a] /\ UNCHANGED <<named, readflag, disk, diskNamed>>
+                               /\ hist' = Append(hist, [op |-> "edit", c |-> Evt.c, a |-> Evt.a])
          [] Evt.op = "read" -> ReadStyle(Evt.c) /\ Evt.seen = shown[Evt.c]
          [] Evt.op = "save" -> Save /\ Evt.exc = "" /\ \A c \in Cells : Evt.re[c] = shown[c]
          [] Evt.op = "reopen" -> \* the named styles of the reopened document are re-read (an unused style keeps only what the file stores for it)
